@@ -707,15 +707,17 @@ func (g *fnGen) evalBin(x *SBin, env *evalEnv) (string, types.Type, error) {
 			// the same uninterpreted ordering the code's string comparisons are translated to
 			sym := q("strless")
 			g.R.declareFun(sym, "(declare-fun |strless| (Int Int) Bool)")
+			// strictly less implies different: the ordering is irreflexive without a quantified axiom
+			less := func(l, r string) string { return S("and", Not(S("=", l, r)), S(sym, l, r)) }
 			switch x.Op {
 			case "<":
-				return S(sym, a, b), tBool_, nil
+				return less(a, b), tBool_, nil
 			case ">":
-				return S(sym, b, a), tBool_, nil
+				return less(b, a), tBool_, nil
 			case "<=":
-				return Not(S(sym, b, a)), tBool_, nil
+				return Not(less(b, a)), tBool_, nil
 			default:
-				return Not(S(sym, a, b)), tBool_, nil
+				return Not(less(a, b)), tBool_, nil
 			}
 		}
 		if g.sortOfSpec(ta) == "Int" && g.sortOfSpec(tb) == "Real" {
